@@ -242,7 +242,9 @@ func (sc *C10Scenario) Execute(t *testing.T) *core.Outcome {
 		// a second, separately created store of the same kind must never show the first one's events
 		ctx := context.Background()
 		openOther := func() {
-			other, err := env.openStore(sc.Store, "other")
+			ocfg := sc.Store
+			ocfg.AltOpts = true
+			other, err := env.openStore(ocfg, "other")
 			if err != nil {
 				out.HarnessErr = "open: " + err.Error()
 				return
